@@ -299,6 +299,38 @@ def r8(p, rep):
     if n == 0:
         raise AnalysisError("unrecognised idiom: the parser has no recognisable number-token test")
 
+def r9(p, rep):
+    rep.rule("C12.R9", "an element is not taken out of a sequence before the test that asks whether the sequence is long enough", "contradiction lint (use before the short-circuit guard that protects it)", floor=3)
+    import os
+
+    from .c03 import VALIDATION_MODULES
+
+    n_tests = 0
+    for f in p.funcs.values():
+        if not any(f.module.name.endswith(m) for m in VALIDATION_MODULES) and "namedtensor.stage1" not in f.module.name:
+            continue
+        if not isinstance(f.node, (ast.FunctionDef, ast.AsyncFunctionDef)):
+            continue
+        n, hits = common.guard_after_use(f.node)
+        n_tests += n
+        for b, S, v, st in hits:
+            rep.violation("C12.R9", f"{f.qualname}:{v}<-{S}", f"{f.module.rel}:{st.lineno}", f"`{norm(st)[:70]}` indexes `{S}` unconditionally, but the later test `{norm(b)[:80]}` first asks about the length of `{S}` and only then looks at `{v}`: when the guard's first operand is true the subscript has already failed (IndexError, an internal exception type) - e.g. a closing bracket as the very first token")
+        if n and not hits:
+            rep.ok("C12.R9", f"{f.qualname}:short-circuit-guards", f.loc, f"{n} length-first short-circuit tests; none of the values they protect is computed before the test")
+    # the lint has an expected count of zero on a correct tree: a positive example must be found on every run
+    pos = os.path.join(os.path.dirname(os.path.dirname(os.path.abspath(__file__))), "selftest", "positive", "guard_after_use.py")
+    tree = ast.parse(open(pos).read())
+    from sa.core import set_parents
+
+    set_parents(tree)
+    fns = {x.name: x for x in tree.body if isinstance(x, ast.FunctionDef)}
+    bad = common.guard_after_use(fns["bad"])[1]
+    good = common.guard_after_use(fns["good"])[1]
+    if len(bad) != 1 or good:
+        raise AnalysisError("self-check of the guard-after-use lint failed on selftest/positive/guard_after_use.py")
+    rep.ok("C12.R9", "self-check:positive-example", "selftest/positive/guard_after_use.py", "the lint reports the seeded positive example and is silent on its corrected twin")
+    rep.info["guard_after_use_tests_inspected"] = n_tests
+
 
 def run(p, rep, tier):
     r8(p, rep)
@@ -312,4 +344,5 @@ def run(p, rep, tier):
     r5(p, rep, literals)
     r6(p, rep)
     r7(p, rep)
+    r9(p, rep)
     rep.info["undecided"] = "structural round-trip equality for all strings and termination of the recursive descent; only the alphabet/progress/dispatch/position clauses are decided"
